@@ -115,7 +115,11 @@ func (r *c18Run) workload(kind string) {
 		rig.W.WaitStarted(g1.Tok, 300*time.Millisecond)
 		rig.W.WaitStarted(g2.Tok, 300*time.Millisecond)
 	})
-	if kind == "B" || kind == "C" {
+	// D: as B, but the client goes through two outages (loss, refused redials, heal) before the rest of the workload, so
+	// that whatever the first loss left behind meets a second loss and then the close
+	outages := map[string]int{"B": 1, "C": 1, "D": 2}[kind]
+	for o := 0; o < outages; o++ {
+		before := len(cl.Dial.Begins())
 		step(func() {
 			rig.Proxy.SetPolicy("reject")
 			if kind == "C" {
@@ -141,7 +145,7 @@ func (r *c18Run) workload(kind string) {
 			}
 			// a few refused redials
 			deadline := time.Now().Add(300 * time.Millisecond)
-			for len(cl.Dial.Begins()) < 5 && time.Now().Before(deadline) && !r.isClosing() {
+			for len(cl.Dial.Begins()) < before+4 && time.Now().Before(deadline) && !r.isClosing() {
 				time.Sleep(time.Millisecond)
 			}
 		})
@@ -152,6 +156,12 @@ func (r *c18Run) workload(kind string) {
 				if rig.Probe(cl, 200*time.Millisecond) == nil {
 					break
 				}
+			}
+			if o+1 < outages {
+				// work in flight at the second loss as well
+				add(rig.Go(cl, "call", rig.Tok("g"), Plan{Gate: true}))
+				add(rig.Go(cl, "mismatch", rig.Tok("mm"), Plan{}))
+				time.Sleep(5 * time.Millisecond)
 			}
 		})
 	}
@@ -383,13 +393,13 @@ func c18NT(c c18Case) (bool, []string) {
 	return c.TrigPoint != "end", cl
 }
 
-const c18Rule = "mixed workload A (a call whose answer cannot be decoded and which therefore stays in flight, paced stream, gated calls awaiting responses, 40 kB multi-frame response, burst of queued calls and a notification, second subscription) and B (A plus a connection reset with refused redials, calls issued between connections incl. retry-tagged, heal); a counting pass records how often each client-side yield point (and each dial) occurs, then the closer is fired at occurrence k of point p with the library goroutine held for 1 ms (and, on the frame-consuming paths, a variant held until the closer has returned, at most 30 ms): every (p,k) in thorough, a stratified sample in quick, plus rapid-drawn (p,k) with delays at exit.exiting-closed / stop.begin / closechans.begin; http and custom clients are closed with calls (with and without a context parameter) in progress. Non-trivial = close fired from inside a yield point (not at the quiescent end); distinct by descriptor hash"
+const c18Rule = "mixed workload A (a call whose answer cannot be decoded and which therefore stays in flight, paced stream, gated calls awaiting responses, 40 kB multi-frame response, burst of queued calls and a notification, second subscription) and B (A plus a connection reset with refused redials, calls issued between connections incl. retry-tagged, heal), C (B with the connection cut inside a frame) and D (B with two such outages, work in flight at each loss); a counting pass records how often each client-side yield point (and each dial) occurs, then the closer is fired at occurrence k of point p with the library goroutine held for 1 ms (and, on the frame-consuming paths, a variant held until the closer has returned, at most 30 ms): every (p,k) in thorough, a stratified sample in quick, plus rapid-drawn (p,k) with delays at exit.exiting-closed / stop.begin / closechans.begin; http and custom clients are closed with calls (with and without a context parameter) in progress. Non-trivial = close fired from inside a yield point (not at the quiescent end); distinct by descriptor hash"
 
 func TestC18(t *testing.T) {
 	rec := NewRec("C18", c18Rule)
 	defer rec.Finish(t)
 	rec.EnableJournal()
-	rec.RequireClass("hold_until_closed", "workload_C", "cancel_at_close", "workload_A", "workload_B", "workload_http", "workload_custom", "at_dial", "at_reconnect.begin", "at_frame.read", "at_write.locked", "at_resp.found", "at_chan.sink", "with_delays")
+	rec.RequireClass("hold_until_closed", "workload_C", "cancel_at_close", "workload_A", "workload_B", "workload_D", "workload_http", "workload_custom", "at_dial", "at_reconnect.begin", "at_frame.read", "at_write.locked", "at_resp.found", "at_chan.sink", "with_delays")
 	run := func(ft failer, c c18Case) {
 		nt, cl := c18NT(c)
 		rec.Run(ft, c, nt, cl, func() *Violation {
@@ -427,7 +437,7 @@ func TestC18(t *testing.T) {
 		run(t, c18Case{Workload: "http", TrigPoint: "end"})
 		run(t, c18Case{Workload: "custom", TrigPoint: "end"})
 		k := 0
-		for _, w := range []string{"A", "B", "C"} {
+		for _, w := range []string{"A", "B", "C", "D"} {
 			m := getCounts(w)
 			run(t, c18Case{Workload: w, TrigPoint: "end"})
 			keys := make([]string, 0, len(m))
@@ -449,7 +459,7 @@ func TestC18(t *testing.T) {
 						continue
 					}
 					// quick: the first two, the last, and a seed-dependent stride in between
-					if !thorough() && occ > 2 && occ != n && ((occ+envInt("VERIF_SEED", 1))%11 != 0 || w == "C") {
+					if !thorough() && occ > 2 && occ != n && ((occ+envInt("VERIF_SEED", 1))%11 != 0 || w == "C" || w == "D") {
 						continue
 					}
 					run(t, c18Case{Workload: w, TrigPoint: pt, TrigOcc: occ})
@@ -469,7 +479,7 @@ func TestC18(t *testing.T) {
 			}
 		}
 		// contexts cancelled while the closer is at work (slow stop / slow exit)
-		for _, w := range []string{"A", "B", "C"} {
+		for _, w := range []string{"A", "B", "C", "D"} {
 			for _, pt := range []string{"resp.delivered", "write.locked", "req.accepted"} {
 				run(t, c18Case{Workload: w, TrigPoint: pt, TrigOcc: 3, CancelAtClose: true, Rules: []*HookRule{{Point: "stop.begin", Occ: 0, Side: "client", DelayU: 15000}}})
 			}
@@ -477,7 +487,7 @@ func TestC18(t *testing.T) {
 		rec.Exhaustive(false)
 	})
 	rec.Rapid(t, "rapid", func(rt *rapid.T) {
-		w := rapid.SampledFrom([]string{"A", "B", "B", "C", "C"}).Draw(rt, "workload")
+		w := rapid.SampledFrom([]string{"A", "B", "B", "C", "C", "D"}).Draw(rt, "workload")
 		m := getCounts(w)
 		pt := rapid.SampledFrom(c18Points).Draw(rt, "point")
 		n := m[pt+"|client"]
